@@ -196,8 +196,14 @@ pub fn exec(op: &[&str]) -> String {
                 Err(e) => return format!("{};-;-", err_class(&e)),
             };
             let mut verdicts = Vec::new();
-            for a in &args {
-                verdicts.push(verdict(&c.add_argument(a.as_str())));
+            for (i, a) in args.iter().enumerate() {
+                // the three string `Argument` impls in turn: str, String, Cow<str>
+                let r = match i % 3 {
+                    0 => c.add_argument(a.as_str()),
+                    1 => c.add_argument(a.clone()),
+                    _ => c.add_argument(std::borrow::Cow::Borrowed(a.as_str())),
+                };
+                verdicts.push(verdict(&r));
             }
             let (mut conn, out) = connection();
             conn.send(c).expect("send");
